@@ -38,6 +38,10 @@ func init() {
 
 func c06Jobs(tier string) []Job {
 	var jobs []Job
+	for _, kind := range []string{"deposit", "depositWithCaller", "replace"} {
+		kind := kind
+		jobs = append(jobs, Job{Name: "content " + kind + " @minting-denom-uUSDC", Run: func(r *Run) { c06Run(r, "denom-uUSDC", kind) }})
+	}
 	for _, hp := range []string{"fresh", "after-traffic", "after-pause-cycle"} {
 		for _, kind := range []string{"send", "sendWithCaller", "deposit", "depositWithCaller", "replace"} {
 			hp, kind := hp, kind
@@ -60,6 +64,11 @@ func c06Scenario() Scenario {
 
 func c06Run(r *Run, hp, kind string) {
 	scn := c06Scenario()
+	denom := "uusdc"
+	if hp == "denom-uUSDC" { // the minting denom is a genesis matter; the burn token on the wire is keccak256 of its LOWER-CASED spelling
+		denom = "uUSDC"
+		scn.Ledger.MintingDenom = denom
+	}
 	w := scn.Build(KindDB)
 	signers := Keys[0:2]
 	var pre []Action
@@ -74,7 +83,7 @@ func c06Run(r *Run, hp, kind string) {
 	switch hp {
 	case "after-traffic":
 		do(MkSend(UserB.Str, 3, distinct32(0x31), []byte("x")))
-		do(MkDeposit(UserB.Str, math.NewInt(10), DomEth, distinct32(0x32), "uusdc"))
+		do(MkDeposit(UserB.Str, math.NewInt(10), DomEth, distinct32(0x32), denom))
 		do(MkSendWithCaller(UserA.Str, 3, distinct32(0x31), []byte("y"), distinct32(0x33)))
 		in := InboundBurn(DomEth, 4, big.NewInt(12), pad32(UserB.Addr), nil)
 		do(MkReceive(UserB.Str, in, Attest(in, signers), "burn(0,4,12)"))
@@ -233,7 +242,7 @@ func c06Run(r *Run, hp, kind string) {
 		}
 	case "deposit", "depositWithCaller":
 		for _, s := range subs {
-			bal := w.Balance(s.Addr, "uusdc")
+			bal := w.Balance(s.Addr, denom)
 			amts := []math.Int{math.NewInt(1), bal}
 			if s.Str == UserA.Str {
 				amts = append(amts, intFromBig(new(big.Int).Add(bigPow2(64), big.NewInt(1))))
@@ -242,7 +251,7 @@ func c06Run(r *Run, hp, kind string) {
 				for _, d := range doms {
 					for ri, rc := range pats {
 						if kind == "deposit" {
-							a := MkDeposit(s.Str, amt, d, rc, "uusdc")
+							a := MkDeposit(s.Str, amt, d, rc, denom)
 							a.Desc = fmt.Sprintf("deposit(%s,dst=%d,recipient#%d) by %s", amt, d, ri, s.Name)
 							if o, p, ok := check(a); ok {
 								checkDepositEvent(a, o, p, s.Str, amt.BigInt(), rc, d, Zero32)
@@ -250,7 +259,7 @@ func c06Run(r *Run, hp, kind string) {
 							continue
 						}
 						for ci, cl := range append(append([][]byte{}, pats...), pats[0][:20], append(append([]byte{}, pats[0]...), 9)) {
-							a := MkDepositWithCaller(s.Str, amt, d, rc, "uusdc", cl)
+							a := MkDepositWithCaller(s.Str, amt, d, rc, denom, cl)
 							a.Desc = fmt.Sprintf("depositWithCaller(%s,dst=%d,recipient#%d,caller#%d) by %s", amt, d, ri, ci, s.Name)
 							if o, p, ok := check(a); ok {
 								checkDepositEvent(a, o, p, s.Str, amt.BigInt(), rc, d, cl)
@@ -266,7 +275,7 @@ func c06Run(r *Run, hp, kind string) {
 			for _, d := range doms {
 				w.Load(base)
 				o1 := w.Apply(MkSendWithCaller(s.Str, d, pats[0], bodies[2], pats[1]))
-				o2 := w.Apply(MkDepositWithCaller(s.Str, math.NewInt(3), d, pats[0], "uusdc", pats[1]))
+				o2 := w.Apply(MkDepositWithCaller(s.Str, math.NewInt(3), d, pats[0], denom, pats[1]))
 				if !o1.OK || !o2.OK {
 					r.HarnessError("replace originals failed: %s %s", o1.Err, o2.Err)
 					continue
@@ -275,7 +284,7 @@ func c06Run(r *Run, hp, kind string) {
 				origSend, origDep := MessageSentOf(o1.Events)[0], MessageSentOf(o2.Events)[0]
 				mid := w.Dump()
 				midView := ViewOf(w)
-				midPre := append(append([]Action{}, pre...), MkSendWithCaller(s.Str, d, pats[0], bodies[2], pats[1]), MkDepositWithCaller(s.Str, math.NewInt(3), d, pats[0], "uusdc", pats[1]))
+				midPre := append(append([]Action{}, pre...), MkSendWithCaller(s.Str, d, pats[0], bodies[2], pats[1]), MkDepositWithCaller(s.Str, math.NewInt(3), d, pats[0], denom, pats[1]))
 				saveBase, saveView, savePre := base, view, pre
 				base, view, pre = mid, midView, midPre
 				for bi, body := range bodies {
